@@ -51,11 +51,12 @@ func (s *psSub) snapshot() []int {
 }
 
 type psRun struct {
-	ps       *chans.PubSub[int]
-	clk      atomic.Int64
-	acks     atomic.Int64
-	tmu      sync.Mutex
-	timeouts []struct {
+	receiversUseAPI bool // receivers call a read-only method of the PubSub between receives
+	ps              *chans.PubSub[int]
+	clk             atomic.Int64
+	acks            atomic.Int64
+	tmu             sync.Mutex
+	timeouts        []struct {
 		ev    int
 		stamp int64
 	}
@@ -71,6 +72,15 @@ func (p *psRun) startReceiver(s *psSub, seed uint64) {
 			<-s.release
 		}
 		for v := range s.ch {
+			// a receiver may use the PubSub itself between two receives (here: a read-only
+			// WithOnly call): a publisher waiting to hand it the next event must not hold
+			// anything that call needs
+			// (only in the stable scenarios: with Sub/Unsub churn a pending writer makes every
+			// new read-lock wait, and a receiver waiting there while PubSync waits for it is the
+			// deadlock-by-design that the churn modes avoid - section 7.1)
+			if p.receiversUseAPI && s.behav != 2 && rr.Chance(1, 4) {
+				_ = p.ps.WithOnly(s.ch)
+			}
 			s.gmu.Lock()
 			s.got = append(s.got, v)
 			s.gmu.Unlock()
@@ -288,7 +298,7 @@ func c10stable(c *core.Ctx) {
 	var nestedFired atomic.Bool
 	variant := r.Intn(6)
 	timeoutOn := r.Chance(2, 5)
-	run := &psRun{ps: &chans.PubSub[int]{}}
+	run := &psRun{ps: &chans.PubSub[int]{}, receiversUseAPI: true}
 	var timeout time.Duration
 	// in 1 scenario of 10 the PubSub has a past: 300 subscriptions that came and went
 	// one after the other (counters and tables that only grow, or wrap, start here);
@@ -1042,12 +1052,26 @@ func c10churn(c *core.Ctx, kind string) {
 // the call has returned.
 func c10withonlyTimeout(c *core.Ctx) bool {
 	r := c.R
-	ps := &chans.PubSub[int]{PubTimeoutAfter: time.Duration(r.Range(100, 800)) * time.Microsecond}
+	// in half of the scenarios the timeout and the callback are configured only AFTER the
+	// subscriptions exist and a first WithOnly clone has been taken: a clone taken later
+	// must reflect the configuration of that moment
+	late := r.Bool()
+	ps := &chans.PubSub[int]{}
 	var mu sync.Mutex
 	var timedOut []int
-	ps.OnPubTimeout = func(ev int) { mu.Lock(); timedOut = append(timedOut, ev); mu.Unlock() }
+	configure := func() {
+		ps.PubTimeoutAfter = time.Duration(r.Range(100, 800)) * time.Microsecond
+		ps.OnPubTimeout = func(ev int) { mu.Lock(); timedOut = append(timedOut, ev); mu.Unlock() }
+	}
+	if !late {
+		configure()
+	}
 	other := ps.SubBuf(4)
 	target := ps.SubBuf(r.Intn(2)) // nobody receives from it
+	if late {
+		_ = ps.WithOnly(target)
+		configure()
+	}
 	only := ps.WithOnly(target)
 	variant := 2 + r.Intn(4) // PubWait, PubSliceWait, PubSync, PubSliceSync: finished when they return
 	evs := []int{1000, 1001, 1002, 1003}[:r.Range(1, 4)]
